@@ -151,12 +151,8 @@ impl<'a> ZoneModel<'a> {
                 Some(_) => self.rule_type(u),
             };
         }
-        // with a leap table, instants within the largest correction of the i64 edge are left open
-        // (the statement does not say whether the conversion may refuse them)
-        let maxc = z.leaps.0.iter().map(|&(_, c)| (c as i64).abs()).max().unwrap_or(0);
-        if u > i64::MAX - maxc || u < i64::MIN + maxc {
-            return Fwd::Unspec;
-        }
+        // with a leap table, the answer is left open only where the instant's own leap-scale value is not an i64
+        // (the statement does not say whether the conversion may refuse those)
         let l = z.leaps.f(u);
         if l < i64::MIN as i128 || l > i64::MAX as i128 {
             return Fwd::Unspec;
